@@ -9,7 +9,7 @@ PROP = {
     "rule": "cases = 34 nesting families x depth ladder (64..10000 quick, ..100000 thorough; 2 MiB and, thorough, 8 MiB stacks) + 18 width families measured at n,2n,4n,8n (CPU-time exponent) + soup / corpus mutants / lossy bytes / nested mixes; "
             "distinct = FNV of the input (or family:depth); non-trivial = nesting depth >= 64, a measured scaling family, or a text whose tree has >= 8 tokens",
     "min_nontrivial": {"quick": 80000, "thorough": 1500000},
-    "max_secs": {"quick": 600, "thorough": 1200},
+    "max_secs": {"quick": 600, "thorough": 1500},
     "abort_is_violation": True,
     "require_clauses": ["a:no-panic", "b:nesting-rung", "c:scaling-measured", "d:cost-within-bound", "e:lossless", "family:soup", "family:corpus-mutant"],
     "assumptions": COMMON_ASSUME + [
